@@ -14,6 +14,9 @@ import Proofs.Faithful
 import Props.C08
 import Props.C03
 import Proofs.Footprint
+import Proofs.Request
+import Proofs.RequestBound
+import Proofs.RequestMax
 namespace Scale.C09
 open Scale Impl
 
@@ -129,5 +132,78 @@ example : memRatio (.seq .vec 24 (.seq .vec 4 (.prim .u32))) = 28 := by decide
     footprint is not — the input then bounds nothing. Kernel-checked on the model: two input bytes
     make a list of 64 zero-width elements decode successfully (four bytes make 2^20 of them). -/
 example : (decode (.seq .list 16 .unit) [0x01, 0x01]).1.isOk = true := by decide
+
+
+/-! ### Requests, for every byte string
+
+`Impl.decodeR` (`Scale/Request.lean`) is the decoder with every point where the crate's code asks the
+allocator for memory made explicit: the `reserve_exact` of each chunk of `decode_vec_chunked`, the
+raw allocation of `Box::decode_wrapped`, and one node per element that `from_iter` has been handed
+for lists, sets and maps. `requestsOn I ty bs` is the list of request sizes the decode of `bs` makes
+over the input implementation `I`. The harness compares it with what a counting allocator observes
+on the real crate (stream `reqs`). -/
+
+/-- The request model is the decoder: same result, same rest, from a slice … -/
+theorem request_model_same_results (ty : Ty) (bs : Bytes) :
+    run sliceInput (decodeR ty) bs = decode ty bs :=
+  run_decodeR sliceInput (fun _ _ => rfl) ty bs
+
+/-- … and from a reader that cannot report its remaining length. -/
+theorem request_model_same_results_unknown_length (ty : Ty) (bs : Bytes) :
+    run ioInput (decodeR ty) bs = run ioInput (decodeP ty) bs :=
+  run_decodeR ioInput (fun _ _ => rfl) ty bs
+
+/-- **The property's bound, for every byte string** — valid, truncated, hostile, successful or not —
+    over any plain byte input `I` (`plainIn_slice`: a slice; `plainIn_io`: a reader with unknown
+    remaining length): the heap memory requested while decoding `bs` is at most
+    `reqRatio ty` bytes per input byte **consumed**, plus the type's fixed pointees, plus
+    `reqAllow ty` — one `MAX_PREALLOCATION` per level of sequence nesting; when the decode succeeds
+    the allowance is not needed. Counts claimed by the input do not occur in the bound.
+    (`_partial`: the hypothesis `productive ty` excludes exactly finding F4, see
+    `unproductive_unbounded`.) -/
+theorem requests_linear_in_consumed_partial {I : InputOps Bytes} (hI : PlainIn I) (ty : Ty)
+    (hp : productive ty = true) (hl : layoutOk ty = true) (bs : Bytes) :
+    (run (traceRec I) (decodeR ty) (bs, [])).2.1.length ≤ bs.length ∧
+    allocTotal (run (traceRec I) (decodeR ty) (bs, [])).2.2 ≤
+      reqRatio ty * (bs.length - (run (traceRec I) (decodeR ty) (bs, [])).2.1.length) + baseMem ty + reqAllow ty ∧
+    ((∃ v, (run (traceRec I) (decodeR ty) (bs, [])).1 = .ok v) →
+      allocTotal (run (traceRec I) (decodeR ty) (bs, [])).2.2 ≤
+        reqRatio ty * (bs.length - (run (traceRec I) (decodeR ty) (bs, [])).2.1.length) + baseMem ty) := by
+  obtain ⟨c, h1, h2, h3⟩ := reqBnd_decodeR hI ty hp hl bs []
+  have hc : bs.length - (run (traceRec I) (decodeR ty) (bs, [])).2.1.length = c := by omega
+  rw [hc]
+  refine ⟨by omega, by simpa [allocTotal] using h3, ?_⟩
+  intro hok
+  simpa [allocTotal] using (h2 hok).2
+
+/-- Hence in terms of the input supplied: linear in `bs.length`, never in a claimed count. -/
+theorem requests_linear_in_input_partial {I : InputOps Bytes} (hI : PlainIn I) (ty : Ty)
+    (hp : productive ty = true) (hl : layoutOk ty = true) (bs : Bytes) :
+    allocTotal (run (traceRec I) (decodeR ty) (bs, [])).2.2 ≤
+      reqRatio ty * bs.length + baseMem ty + reqAllow ty := by
+  obtain ⟨_, h, _⟩ := requests_linear_in_consumed_partial hI ty hp hl bs
+  have : reqRatio ty * (bs.length - (run (traceRec I) (decodeR ty) (bs, [])).2.1.length) ≤ reqRatio ty * bs.length :=
+    Nat.mul_le_mul_left _ (Nat.sub_le _ _)
+  omega
+
+/-- **Every single request is small**, over ANY input implementation and for EVERY type (productive
+    or not): at most one preallocation chunk, or one fixed-size pointee / list node of the type. -/
+theorem every_request_small {σ : Type} (I : InputOps σ) (ty : Ty) (hl : layoutOk ty = true) (s : σ) (n : Nat)
+    (h : Hook.alloc n ∈ (run (traceRec I) (decodeR ty) (s, [])).2.2) : n ≤ reqMaxOne ty :=
+  maxReq_decodeR I ty hl (reqMaxOne ty) (Nat.le_refl _) s [] (by intro n hn; simp at hn) n h
+
+/-- Instances and non-vacuity. `Vec<Vec<u32>>`: 28 bytes per input byte, two levels of allowance. -/
+example : productive (.seq .vec 24 (.seq .vec 4 (.prim .u32))) = true ∧
+    layoutOk (.seq .vec 24 (.seq .vec 4 (.prim .u32))) = true := by decide
+example : reqRatio (.seq .vec 24 (.seq .vec 4 (.prim .u32))) = 28 := by decide
+example : reqAllow (.seq .vec 24 (.seq .vec 4 (.prim .u32))) = 2 * maxPrealloc := by decide
+example : reqMaxOne (.seq .vec 24 (.box 40 (.seq .list 24 (.prim .u8)))) = maxPrealloc := by decide
+/-- A hostile count (40000 elements claimed, 3 bytes present): from a slice nothing is requested,
+    from a reader of unknown length exactly one chunk. -/
+example : requestsOn sliceInput (.seq .vec 1 (.prim .u8)) (Spec.compact 40000 ++ [1, 2, 3]) = [] := by decide
+example : requestsOn ioInput (.seq .vec 1 (.prim .u8)) (Spec.compact 40000 ++ [1, 2, 3]) = [16384] := by decide
+/-- Element-by-element vector of boxes: one chunk reserved, then one box per decoded element. -/
+example : requestsOn sliceInput (.seq .vec 8 (.box 4 (.prim .u32))) (Spec.compact 3 ++ [1, 0, 0, 0, 2, 0, 0, 0]) =
+    [24, 4, 4, 4] := by decide
 
 end Scale.C09
